@@ -44,6 +44,40 @@ func Schemata(p *core.Prog, r *core.Report) {
 			}
 		})
 	}
+	// (a') the accessors report every recorded entry: inside FieldSchemata / ItemSchemata the write into the
+	// returned map depends on nothing but the loop and on which of the two schemata representations is filled —
+	// never on the member's name, index or container (a filter on fs.field == "" drops the legal member name "")
+	nAcc := 0
+	for _, an := range []string{"(*Result).FieldSchemata", "(*Result).ItemSchemata"} {
+		f := p.Func(an)
+		if f == nil {
+			r.Unk(rule, "accessor:"+an, "-", "accessor not found")
+			continue
+		}
+		core.EachInstr(f, func(i ssa.Instruction) {
+			mu, ok := i.(*ssa.MapUpdate)
+			if !ok {
+				return
+			}
+			nAcc++
+			var bad []string
+			for _, c := range core.ControlConds(mu.Block()) {
+				a := condAtom(c)
+				if strings.Contains(a, "ok(") || strings.Contains(a, ".schemata.") || strings.HasPrefix(a, "recv.cached") || loopCond(c.If.Block(), c.Value) {
+					continue
+				}
+				bad = append(bad, a)
+			}
+			key := fmt.Sprintf("accessor:%s:total#%d", an, nAcc)
+			if len(bad) > 0 {
+				r.Bad(rule, key, p.Pos(mu.Pos()), "an entry recorded during validation is reported by the accessor only when "+strings.Join(bad, " and ")+": members filtered out here have no schemata for the post-processors (pruned although described, never defaulted)")
+			} else {
+				r.OK(rule, key, p.Pos(mu.Pos()), "every recorded entry is reported (the write depends only on the loop and on which schemata representation is filled)")
+			}
+		})
+	}
+	r.Count("schemata_accessor_writes", nAcc)
+	r.Floor("schemata_accessor_writes", 4)
 	r.Count("schemata_list_stores", nSt)
 	r.Floor("schemata_list_stores", 8)
 	// appended entries carry cloned schemata
